@@ -28,6 +28,7 @@ WITH THE SOFTWARE OR THE USE OR OTHER DEALINGS IN THE SOFTWARE.
 #include "ResolutionProof.h"
 
 #include <tsolvers/TSolver.h>
+#include <common/VerifTrace.h>
 
 #include <algorithm>
 #include <numeric>
@@ -116,6 +117,11 @@ TPropRes CoreSMTSolver::handleNewSplitClauses(SplitClauses & splitClauses) {
             if (!this->logsResolutionProof()) {
                 if (decisionLevel() == 0) {
                     // MB: do not allocate, we can directly enqueue the implied literal
+#ifdef OPENSMT_VERIF
+                    if (OSMT_VERIF_TRACING()) {
+                        verif::emitClause("DERIVED splitUnit", theory_handler.getLogic(), vec<Lit>{splitClause[notFalsifiedIndex.value()]}, [this](Var v) { return theory_handler.varToTerm(v); });
+                    }
+#endif
                     uncheckedEnqueue(splitClause[notFalsifiedIndex.value()], CRef_Undef);
                     res = TPropRes::Propagate;
                     continue;
@@ -181,6 +187,15 @@ CoreSMTSolver::handleSat()
         if (deds[i].lev != decisionLevel()) {
             // Maybe do something someday?
         }
+#ifdef OPENSMT_VERIF
+        if (OSMT_VERIF_TRACING() and decisionLevel() == 0) {
+            // a root-level theory deduction is never explained: log it together with the theory literals it may depend on
+            vec<Lit> line;
+            line.push(l);
+            for (Lit t : trail) { if (theory_handler.isDeclared(var(t))) { line.push(t); } }
+            verif::emitClause("TDEDUCE0", theory_handler.getLogic(), line, [this](Var v) { return theory_handler.varToTerm(v); });
+        }
+#endif
         CRef deducedReason = CRef_Fake;
         if (decisionLevel() == 0 and logsResolutionProof()) {
             vec<Lit> reasonLits;
